@@ -314,6 +314,53 @@ theorem advance_spec (T w s : Nat) (hs : s < 2 ^ w) :
       rw [Nat.mul_add, Nat.mul_one]; omega
     rw [this, Nat.add_mul_mod_self_left, Nat.mod_eq_of_lt hs]
 
+/-- a counter whose true total went from `t` to `t' ≥ t` in less than one period, seen only modulo 2^w: `advance`
+recovers `t'` -/
+theorem advance_true (w t t' : Nat) (hle : t ≤ t') (hstep : t' - t < 2 ^ w) : advance t w (t' % 2 ^ w) = t' := by
+  have hpos : 0 < 2 ^ w := by positivity
+  obtain ⟨h1, h2, h3⟩ := advance_spec t w (t' % 2 ^ w) (Nat.mod_lt _ hpos)
+  generalize advance t w (t' % 2 ^ w) = a at *
+  have da := Nat.div_add_mod a (2 ^ w)
+  have db := Nat.div_add_mod t' (2 ^ w)
+  rw [h2] at da
+  generalize 2 ^ w = P at *
+  generalize a / P = qa at *
+  generalize t' / P = qb at *
+  generalize t' % P = r at *
+  have hq : qa = qb := by
+    by_contra hne
+    rcases Nat.lt_or_gt_of_ne hne with hlt | hgt
+    · have := Nat.mul_le_mul_left P (show qa + 1 ≤ qb from hlt)
+      rw [Nat.mul_add, Nat.mul_one] at this
+      generalize P * qa = x at *
+      generalize P * qb = y at *
+      omega
+    · have := Nat.mul_le_mul_left P (show qb + 1 ≤ qa from hgt)
+      rw [Nat.mul_add, Nat.mul_one] at this
+      generalize P * qa = x at *
+      generalize P * qb = y at *
+      omega
+  subst hq
+  omega
+
+/-- the totals the specification keeps over a list of samples, from total `T` -/
+def runTotals (T w : Nat) : List Nat → List Nat
+  | [] => []
+  | s :: ss => advance T w s :: runTotals (advance T w s) w ss
+
+/-- **running total of a wrapping counter**: true totals `t ≤ t₁ ≤ t₂ ≤ …`, each step shorter than the period 2^w,
+observed modulo 2^w, are recovered exactly -/
+theorem runTotals_true (w : Nat) : ∀ (ts : List Nat) (t : Nat), Fit.Accum.Steps w t ts →
+    runTotals t w (ts.map (· % 2 ^ w)) = ts := by
+  intro ts
+  induction ts with
+  | nil => intro t _; rfl
+  | cons t' rest ih =>
+    intro t hs
+    obtain ⟨hle, hstep, hrest⟩ := hs
+    simp only [List.map_cons, runTotals]
+    rw [advance_true w t t' hle hstep, ih t' hrest]
+
 /-- the accumulator table and the running totals agree on every key that accumulating components feed -/
 def AccRel (t : Table) (a : Fit.Accum.Acc) (rs : Runs) : Prop :=
   ∀ m f, accInto t m f ≠ [] →
@@ -598,7 +645,7 @@ theorem compLoop_cons_spec (cv : CV) (t : Table) (mesg fuel : Nat) (multi : Bool
                 (if c.accumulate then Fit.Accum.accumulate st.acc mesg c.fieldNum (Fit.Bits.pull ws c.bits).1 c.bits
                   else ((Fit.Bits.pull ws c.bits).1, st.acc)).1)) (destOf t mesg c.fieldNum)))
           (Fit.Bits.pull ws c.bits).2 rest := by
-  rw [compLoop]
+  rw [compLoop_cons_eq]
   obtain ⟨d1, d2, d3⟩ := destOf_eq t mesg c.fieldNum
   simp only [nextComps, valueOf, put_eq, subFieldOf_eq, d1, d2, d3]
   rfl
@@ -617,7 +664,7 @@ theorem slices_cons (cv : CV) (t : Table) (mesg fuel : Nat) (multi : Bool) (s : 
               (nextComps (put s.fields c.fieldNum (destOf t mesg c.fieldNum) (valueOf cv c (destOf t mesg c.fieldNum) p.1))
                 (destOf t mesg c.fieldNum))).bind
               fun s1 => slices cv t mesg fuel multi s1 n (off + c.bits) rest := by
-  rw [slices]
+  rw [slices_cons_eq]
   simp only
   by_cases h1 : sliceAt n off c.bits = 0 ∧ multi = true
   · rw [if_pos h1, if_pos h1]
@@ -646,8 +693,8 @@ theorem loop_of_expand (fuel : Nat)
   induction comps with
   | nil =>
     intro multi st s ws n off s' hrel _ _ hs
-    rw [slices] at hs
-    rw [compLoop]
+    rw [slices_nil_eq] at hs
+    rw [compLoop_nil_eq]
     cases hs; exact hrel
   | cons c rest ih =>
     intro multi st s ws n off s' hrel hreach hbits hs
@@ -700,8 +747,8 @@ theorem expand_of_loop (fuel : Nat)
       (∀ c ∈ comps, Reach t mesg c) → expandValue cv t mesg (fuel + 1) s v bt comps = some s' →
       Rel t (expandComponents cv t mesg (fuel + 1) st v bt comps) s' := by
   intro st s v bt comps s' hrel hreach hs
-  rw [expandValue] at hs
-  rw [expandComponents]
+  rw [expandValue_succ_eq] at hs
+  rw [expandComponents_succ_eq]
   by_cases h1 : comps.isEmpty = true
   · rw [if_pos h1] at hs ⊢; cases hs; exact hrel
   rw [if_neg h1] at hs ⊢
@@ -728,8 +775,8 @@ theorem expand_refines (fuel : Nat) :
   induction fuel with
   | zero =>
     intro st s v bt comps s' hrel _ hs
-    rw [expandValue] at hs
-    rw [expandComponents]
+    rw [expandValue_zero_eq] at hs
+    rw [expandComponents_zero_eq]
     cases hs; exact hrel
   | succ f ih => exact expand_of_loop cv t mesg f (loop_of_expand cv t mesg hP f ih)
 
